@@ -21,6 +21,7 @@ const (
 	kStruct  nodeKind = iota // struct-typed node (keys are fixed by the struct)
 	kLeaf                    // settable leaf (scalar, text-unmarshaled type, []string, string map)
 	kSkipped                 // a position whose type the generator does not write (counted)
+	kList                    // a list whose elements are structs (written as a whole: 0..3 partially written elements)
 )
 
 // schemaNode is one position of a component's configuration schema, derived
@@ -41,6 +42,22 @@ type schemaNode struct {
 	Parent   *schemaNode   // nearest enclosing struct node (nil for the root)
 	Children []*schemaNode // for struct nodes: positions directly below (squash-flattened)
 	gen      func(t *rapid.T) Val
+	Elem     *compKind // for kList: the schema of one element
+}
+
+// listElemType: t is a slice of structs or of pointers to structs.
+func listElemType(t reflect.Type) (reflect.Type, bool) {
+	if t.Kind() != reflect.Slice {
+		return nil, false
+	}
+	e := t.Elem()
+	if e.Kind() == reflect.Pointer {
+		e = e.Elem()
+	}
+	if e.Kind() != reflect.Struct || implementsTextUnmarshaler(e) {
+		return nil, false
+	}
+	return e, true
 }
 
 func (n *schemaNode) key() string { return strings.Join(n.Path, "::") }
@@ -137,12 +154,16 @@ func leafable(t reflect.Type) (bool, string) {
 }
 
 // walkSchema derives the schema below a struct type.
-func walkSchema(t reflect.Type) []*schemaNode {
+func walkSchema(t reflect.Type) []*schemaNode { return walkSchemaMode(t, false) }
+
+// walkSchemaMode: inElem=true derives the schema of a list element — third-party
+// structs are walked like any other, nested lists of structs are not written.
+func walkSchemaMode(t reflect.Type, inElem bool) []*schemaNode {
 	var out []*schemaNode
 	root := &schemaNode{Path: nil, Kind: kStruct, Type: t, OwnUnm: implementsUnmarshaler(t)}
 	root.Custom = root.OwnUnm
 	out = append(out, root)
-	walkStruct(t, nil, 0, root.Custom, false, &out, map[reflect.Type]int{})
+	walkStruct(t, nil, 0, root.Custom, false, &out, map[reflect.Type]int{}, inElem)
 	by := map[string]*schemaNode{}
 	for _, n := range out {
 		by[n.key()] = n
@@ -157,7 +178,7 @@ func walkSchema(t reflect.Type) []*schemaNode {
 	return out
 }
 
-func walkStruct(t reflect.Type, path []string, underOpt int, custom, squashed bool, out *[]*schemaNode, seen map[reflect.Type]int) {
+func walkStruct(t reflect.Type, path []string, underOpt int, custom, squashed bool, out *[]*schemaNode, seen map[reflect.Type]int, inElem bool) {
 	if seen[t] > 1 {
 		return
 	}
@@ -180,7 +201,7 @@ func walkStruct(t reflect.Type, path []string, underOpt int, custom, squashed bo
 			if ft.Kind() != reflect.Struct {
 				continue
 			}
-			if isThirdParty(ft) {
+			if isThirdParty(ft) && !inElem {
 				// the third-party subtree is left out, but its keys must be known so
 				// that an "unknown" key never collides with them
 				for j := 0; j < ft.NumField(); j++ {
@@ -190,11 +211,15 @@ func walkStruct(t reflect.Type, path []string, underOpt int, custom, squashed bo
 					}
 					sti := parseTag(sf)
 					p := append(append([]string{}, path...), sti.name)
+					if _, ok := listElemType(sf.Type); ok {
+						*out = append(*out, &schemaNode{Path: p, Kind: kList, Type: sf.Type, Squashed: true, Custom: custom})
+						continue
+					}
 					*out = append(*out, &schemaNode{Path: p, Kind: kSkipped, Type: sf.Type, Why: "third-party otelconf subtree", Squashed: true})
 				}
 				continue
 			}
-			walkStruct(ft, path, underOpt, custom || implementsUnmarshaler(ft), true, out, seen)
+			walkStruct(ft, path, underOpt, custom || implementsUnmarshaler(ft), true, out, seen, inElem)
 			continue
 		}
 		p := append(append([]string{}, path...), ti.name)
@@ -208,23 +233,29 @@ func walkStruct(t reflect.Type, path []string, underOpt int, custom, squashed bo
 			uo++
 		}
 		n := &schemaNode{Path: p, Type: ft, Optional: opt, UnderOpt: uo, Custom: custom, Squashed: squashed, OmitEmpt: ti.omitempty}
+		_, isList := listElemType(ft)
 		switch {
-		case isThirdParty(ft):
+		case isList && !opt && inElem:
+			n.Kind, n.Why = kSkipped, "nested list of structs"
+		case isList && !opt:
+			// a list of structs: written as a whole; its element is also a struct-typed
+			// position where an unknown key can be placed (own structs only: the
+			// third-party ones swallow unknown keys by design, `,remain`)
+			n.Kind = kList
+			*out = append(*out, n)
+			if et, _ := listElemType(ft); !isThirdParty(et) && ft.Elem().Kind() == reflect.Struct {
+				*out = append(*out, &schemaNode{Path: append(append([]string{}, p...), listElem), Kind: kStruct, Type: et, UnderOpt: uo,
+					Custom: custom || implementsUnmarshaler(et), OwnUnm: implementsUnmarshaler(et), ListElem: true})
+			}
+			continue
+		case isThirdParty(ft) && !inElem:
 			n.Kind, n.Why = kSkipped, "third-party otelconf subtree"
 		case ft.Kind() == reflect.Struct && !implementsTextUnmarshaler(ft):
 			n.Kind = kStruct
 			n.OwnUnm = implementsUnmarshaler(ft)
 			n.Custom = custom || n.OwnUnm
 			*out = append(*out, n)
-			walkStruct(ft, p, uo, n.Custom, false, out, seen)
-			continue
-		case !opt && ft.Kind() == reflect.Slice && ft.Elem().Kind() == reflect.Struct && !implementsTextUnmarshaler(ft.Elem()):
-			// a list of structs: the list itself is not written, but its element is a
-			// struct-typed position where an unknown key can be placed
-			n.Kind, n.Why = kSkipped, "slice of "+ft.Elem().String()
-			*out = append(*out, n)
-			*out = append(*out, &schemaNode{Path: append(append([]string{}, p...), listElem), Kind: kStruct, Type: ft.Elem(), UnderOpt: uo,
-				Custom: custom || implementsUnmarshaler(ft.Elem()), OwnUnm: implementsUnmarshaler(ft.Elem()), ListElem: true})
+			walkStruct(ft, p, uo, n.Custom, false, out, seen, inElem)
 			continue
 		default:
 			if ok, why := leafable(ft); ok {
